@@ -64,6 +64,15 @@ Theorem C05_vv_op_sum : forall F (K : fops F), flaws K -> forall (m : msp) id va
 Proof. exact @vv_op_exact. Qed.
 Print Assumptions C05_vv_op_sum.
 
+(* any number of dealers: the product of V1, V2, .., Vn verifies exactly the coordinate-wise sum of the
+   shares the individual vectors assign to the holder *)
+Theorem C05_vv_op_sum_n : forall F (K : fops F), flaws K -> forall (m : msp) id vals V1 Vs,
+  length V1 = msp_D m -> Forall (fun V => length V = msp_D m) Vs -> rows_of m id <> [] ->
+  (feldman_verify K m (id, vals) (fold_left (vadd K) Vs V1) = true <->
+   vals = fold_left (vals_add K) (map (fun V => derived K m V id) Vs) (derived K m V1 id)).
+Proof. exact @vv_op_sum_n. Qed.
+Print Assumptions C05_vv_op_sum_n.
+
 (* reconstruction in the exponent from the public (lifted) shares of an accepted set gives V_0 = r_0·G *)
 Theorem C05_recon_in_exponent : forall F (K : fops F), flaws K -> forall (m : msp) V ids,
   wf_msp m -> NoDup ids -> length V = msp_D m -> accepts K m ids = true ->
